@@ -8,7 +8,7 @@ import inspect
 import json
 from builtins import enumerate, issubclass
 from copy import deepcopy
-from collections import OrderedDict, defaultdict
+from collections import OrderedDict, defaultdict, deque
 from collections.abc import Mapping
 from inspect import Signature, Parameter, signature, currentframe
 import sys
@@ -1338,7 +1338,36 @@ class Structure(UniqueMixin, metaclass=StructMeta):
         return not self.__eq__(other)
 
     def __hash__(self):
-        return str(self).__hash__()
+        # hash a canonical form of exactly what __eq__ compares (the values read back, field defaults included):
+        # equal numbers hash alike whatever their type (hash(1) == hash(1.0) == hash(True) == hash(Decimal(1))),
+        # sets and dicts irrespective of iteration order, a None-valued / unset attribute like an absent one
+        def canonical(val):
+            if isinstance(val, dict):
+                return frozenset((canonical(k), canonical(v)) for k, v in dict.items(val))
+            if isinstance(val, (set, frozenset)):
+                return frozenset(canonical(v) for v in val)
+            if isinstance(val, (list, tuple, deque)):
+                return (len(val),) + tuple(canonical(v) for v in list(val))
+            try:
+                return hash(val)
+            except TypeError:
+                return hash(str(val))
+
+        fields = self.__class__.get_all_fields_by_name()
+        items = []
+        for k in set(self.__dict__) | set(fields):
+            if k in _internal_props:
+                continue
+            val = self.__dict__[k] if k in self.__dict__ else getattr(self, k, None)
+            if val is not None:
+                items.append((k, canonical(val)))
+        return hash(
+            (
+                self.__class__.__name__,
+                frozenset(items),
+                frozenset(self.__dict__.get("_none_fields") or ()),
+            )
+        )
 
     def __delitem__(self, key):
         if getattr(self, IS_IMMUTABLE, False):
